@@ -1,6 +1,7 @@
 """C07 — best-feature safety net: never silently worse than the best single feature."""
 from __future__ import annotations
 
+import contextlib
 import json
 from fractions import Fraction
 
@@ -24,12 +25,70 @@ RULE = (
     "run may use different label encodings, Model(direction=<feature>) is generated (feat_pass/desc vs `dirStart`, "
     "best_feat must name that feature), and assign_confidence(scores=None) is run: per collection the result files must "
     "rank by a (feature, direction) pair accepting the most targets at eval_fdr, low values first when lower-is-better "
-    "(op fbentry)"
+    "(op fbentry); second extension: brew(ensemble=True), label columns stored as float / int8, a follow-up brew() with the "
+    "trained fold models handed over as a list on a table built so that the models' scores accept feat_total-1 / "
+    "feat_total / feat_total+1 targets (the boundary of the strict comparison), a follow-up brew() with ONE trained model "
+    "that is re-trained (estimator that gets worse by re-training -> reset to the original model's calibrated scores; or "
+    "equally good -> per-fold scores; feat_pass/best_feat/desc of the is_trained start are recomputed independently), all "
+    "checked against `brewFull` / `TailSpecG` (ops fbfull / fbtailgspec / fbreset); the PEP estimator of "
+    "assign_confidence is replaced by a recorder and its input must be the higher-is-better ranking score of the rows of "
+    "every level file (op fbpep); a quarter of the runs use a decision_function estimator (brew calibrates every fold's "
+    "scores per collection before the comparison; recomputed exactly from the C01 labels)"
 )
 THR = 0.25
 
 
+class FlipProba(recest.TagProba):
+    """recest.TagProba whose output order flips once `fit` has been called more than `flip_at` times (None: never):
+    an estimator that gets worse by re-training.  With flip_at=None it is recest.TagProba."""
+
+    def __init__(self, sign=1, run=0, tagged=True, order=False, flip_at=None):
+        super().__init__(sign=sign, run=run, tagged=tagged, order=order)
+        self.flip_at = flip_at
+
+    def _score(self, X):
+        s = super()._score(X)
+        if self.flip_at is not None and self.n_fit_ > self.flip_at:
+            s = 2 * (self.tag_ if self.tagged else 0) - s          # -(s - tag) + tag
+        return s
+
+
+class FlipDecision(FlipProba):
+    """the same exposing decision_function: brew calibrates the scores of every fold before comparing them"""
+
+    def decision_function(self, X):
+        return self._score(X)
+
+    predict_proba = None
+
+
 def gen_case(rng):
+    c = gen_case_base(rng)
+    # --- second extension (drawn after the first-generation fields)
+    c["ens"] = rng.random() < 0.2                              # brew(ensemble=True)
+    c["lab_dtype"] = rng.choice([None, None, None, "float", "int8"])   # how a 1/-1 or 1/0 label column is stored
+    # a second brew() on the fold models of the first one
+    c["follow"] = rng.choice([None] * 11 + ["list", "list", "retrain-flip", "retrain-flip", "retrain-same"])
+    c["delta"] = rng.choice([-1, 0, 0, 1])                     # list follow-up: accepted by the models = feat_total + delta
+    # estimator API: predict_proba only (scores compared as they are) or decision_function (the default PercolatorModel's
+    # kind: every fold's scores are calibrated, per collection, before the comparison)
+    c["api"] = rng.choice(["proba", "proba", "proba", "decision"])
+    if c["api"] == "decision" and c["est"] != "good" and rng.random() < 0.5:
+        c["est"] = "good"                                     # (calibration only happens when every fold model is trained)
+    if c["follow"]:
+        c["api"] = "proba"
+        # the follow-ups need trained fold models
+        c["est"] = rng.choice(["good", "good", "good", "forced-good"])
+        c["direction"] = rng.choice([None, None, 0])
+        c["two_good"] = False                                  # (a second strong feature makes the first training fail)
+        if c["follow"] == "retrain-flip" and rng.random() < 0.7:
+            # permissive training, strict evaluation, moderate signal: after the reset the original model's scores accept
+            # fewer targets on all PSMs than its start count on a training set (so the fallback is due) — or about as many
+            c.update(rng.choice([dict(train_fdr=0.5, test_fdr=0.125, signal=2.0), dict(train_fdr=0.5, test_fdr=0.0625, signal=2.5)]))
+    return c
+
+
+def gen_case_base(rng):
     return dict(
         nfiles=rng.choice([1, 1, 2]),
         n_spectra=rng.choice([150, 220, 300]),
@@ -65,6 +124,63 @@ def raw_labels(df):
 def raw_wire(df):
     """the stored label column on the wire: T/F for booleans, the integer otherwise"""
     return raw_labels(df)
+
+
+@contextlib.contextmanager
+def pep_recorder(calls):
+    """pipeline.pep_kernel(stub=True) with a memory: the PEP kernel called by confidence.py answers zeros and records the
+    (scores, targets) it was handed"""
+    mods = [P.mod("mokapot.confidence"), P.mod("mokapot.brew_rollup")]
+    olds = [m.peps_from_scores for m in mods]
+
+    def rec(scores, targets, alg="qvality"):
+        calls.append((np.array(scores, dtype=float).ravel(), np.array(targets).astype(bool).ravel()))
+        return np.zeros(len(scores))
+
+    for m in mods:
+        m.peps_from_scores = rec
+    try:
+        yield
+    finally:
+        for m, o in zip(mods, olds):
+            m.peps_from_scores = o
+
+
+def pep_input_check(chk, case, calls, out, tabs, returned, ret_int, descs):
+    """the scores handed to the PEP estimator must be higher-is-better in the returned direction: at every level the
+    estimator's input is the ranking score reported for the rows of that level (spec, restated: value if desc else
+    -value); model: `pepScores` (op fbpep) on the PSM level"""
+    model_cols = None
+    if ret_int is not None:
+        resp = common.driver_batch([req("fbpep", bool(descs[k]), ret_int[k]) for k in range(len(tabs))])
+        model_cols = [[int(x) for x in dec(r_)] for r_ in resp]
+    for k, df in enumerate(tabs):
+        desc = bool(descs[k])
+        rank = returned[k] if desc else -returned[k]
+        if model_cols is not None and not np.array_equal(np.asarray(model_cols[k], dtype=float), rank):
+            chk.corr_break("fbpep", dict(case=case, collection=k, desc=desc))
+        byid = {sid: i for i, sid in enumerate(df["SpecId"])}
+        for level in ("psms", "peptides"):
+            t = P.read_result(out / f"p{k}.targets.{level}"); dd = P.read_result(out / f"p{k}.decoys.{level}")
+            if t is None or dd is None:
+                continue
+            want_t = np.asarray([rank[byid[x]] for x in t["PSMId"]], dtype=float)
+            want_d = np.asarray([rank[byid[x]] for x in dd["PSMId"]], dtype=float)
+            n = len(want_t) + len(want_d)
+            hit = any(len(sc) == n and int(tg.sum()) == len(want_t) and same_scores(sc[tg], want_t)
+                      and same_scores(sc[~tg], want_d) for sc, tg in calls)
+            chk.count("pep_input", f"{level}:{'desc' if desc else 'asc'}")
+            if not hit:
+                flipped = any(len(sc) == n and int(tg.sum()) == len(want_t) and same_scores(sc[tg], -want_t)
+                              and same_scores(sc[~tg], -want_d) for sc, tg in calls)
+                chk.spec_violation("pep-input-direction",
+                                   dict(case=case, collection=k, level=level, desc=desc,
+                                        clause=f"assign_confidence(descs=[{desc}]): at the {level} level the PEP estimator was not "
+                                               "handed the higher-is-better ranking scores of the rows of that level"
+                                               + (" (it was handed their negation: for a lower-is-better score the PEPs are "
+                                                  "estimated as if high values were good)" if flipped else "")))
+                return False
+    return True
 
 
 def entry_check(chk, case, d, dss, tabs, feature_cols):
@@ -213,6 +329,323 @@ def refusal_check(chk, case, d, tabs, feature_cols, direction, msg):
                                    + f" accepts targets at train_fdr (per fold: {start})"))
 
 
+def same_scores(got, want):
+    """exact for integer-valued scores (every score the first generation of this harness produced); calibrated scores are
+    fractions that pass through text files inside assign_confidence, so they are compared to 1e-12 (relative)"""
+    got = np.asarray(got, dtype=float); want = np.asarray(want, dtype=float)
+    if got.shape != want.shape:
+        return False
+    if np.all(np.isfinite(want)) and np.all(want == np.round(want)):
+        return bool(np.array_equal(got, want))
+    return bool(np.allclose(got, want, rtol=1e-12, atol=1e-12))
+
+
+def model_attrs(m, feature_cols):
+    """[feat_pass, index of best_feat, desc, override, is_trained] of a returned Model, or None"""
+    if m.feat_pass is None or not isinstance(m.best_feat, str) or m.best_feat not in feature_cols:
+        return None
+    return [int(m.feat_pass), feature_cols.index(m.best_feat), bool(m.desc), bool(m.override), bool(m.is_trained)]
+
+
+def int_columns(returned):
+    if all(np.all(np.isfinite(r)) and np.all(r == np.round(r)) for r in returned):
+        return [[int(v) for v in r] for r in returned]
+    return None
+
+
+def check_full(chk, case, mode, ms, thr, tabs, feature_cols, compared, reset, ens, src_reset, src_ens, per_fold,
+               ret_int, descs, extra):
+    """a follow-up run against `brewFull` (model, with its own choice of the source) and `TailSpecG` (specification, for
+    the compared scores `compared` as restated by the caller)."""
+    colls = [[raw_wire(df), [[int(v) for v in df[c]] for c in feature_cols], per_fold[k] if per_fold else []]
+             for k, df in enumerate(tabs)]
+    info = dict(case=case, follow=mode, models=ms, descs=[bool(x) for x in descs], **extra)
+    shaped = ret_int is not None and len(ret_int) == len(tabs) and all(len(r) == len(df) for r, df in zip(ret_int, tabs)) \
+        and len(descs) == len(tabs)
+    if not shaped:
+        chk.spec_violation("safety-net-full", dict(info, clause=f"{mode}: the returned scores are not one list per collection "
+                                                                "with one value per row (or not the expected kind of values)"))
+        return
+    resp = common.driver_batch([
+        req("fbfull", reset, ens, ms, thr, colls, src_reset, src_ens),
+        req("fbtailgspec", ms, thr, colls, compared, [ret_int, [bool(x) for x in descs]]),
+        req("fbtotal", thr, colls, compared)])
+    model, spec_ok, total = dec(resp[0]), dec(resp[1]) == "T", int(dec(resp[2]))
+    feat_total = max(m[0] for m in ms)
+    all_override = all(m[3] for m in ms)
+    info.update(feat_total=feat_total, accepted_by_compared_scores=total)
+    chk.count(f"follow_boundary:{mode}", "forced" if all_override else
+              ("feat_total>pred" if feat_total > total else ("equal" if feat_total == total else "feat_total<pred")))
+    if not spec_ok:
+        kept = ret_int == compared
+        chk.spec_violation("safety-net-full",
+                           dict(info, clause=f"{mode}: the best feature count of the fold models is {feat_total}, the compared scores "
+                                             f"accept {total} genuine targets at q<={thr}; brew returned "
+                                             + ("the compared scores" if kept else "something else than the compared scores")
+                                             + f" with descs={[bool(x) for x in descs]} — not what TailSpecG allows (keep the "
+                                               "scores iff they are not beaten, else every collection's column of the best "
+                                               "feature of a best fold model with its direction)"))
+        return
+    if model == "reject-label":
+        chk.corr_break("fbfull", dict(info, note="model rejects labels that brew accepted"))
+        return
+    fm_scores = [[int(x) for x in col] for col in model[0]]
+    fm_descs = [x == "T" for x in model[1]]
+    chk.count(f"follow_tail:{mode}", "kept" if fm_scores == compared else "feature")
+    if fm_scores != ret_int or fm_descs != [bool(x) for x in descs]:
+        if sum(1 for m in ms if m[0] == feat_total) == 1 or fm_scores == compared:
+            chk.corr_break("fbfull", dict(info, model_descs=fm_descs))
+
+
+def follow_list(chk, case, d, tabs, feature_cols, models, ms, run, sign, off):
+    """brew(psms2, model=[the trained fold models]) — no fitting, `feat_pass/best_feat/desc` are what the objects carry —
+    on a table built so that the models' scores accept exactly feat_total + delta targets at test_fdr (when that many
+    targets can be accepted at all): the boundary of the strict comparison."""
+    import random
+    import mokapot
+
+    thr = Fraction(case.get("test_fdr", THR))
+    k_top = max(1, max(m[0] for m in ms) + case.get("delta", 0))
+    r2 = random.Random(case["data_seed"] ^ 0x5BD1E995)
+    n_dec = k_top + 2
+    n_extra = r2.choice([0, 3, 6])
+    n = max(12, k_top + n_dec + n_extra)
+    df = mkdata.make_psm_table(r2, n_spectra=n, max_per_spectrum=1, n_feat=2, label_enc="bool", optional=("ExpMass",))
+    # rank by the models' scores: k_top targets, then decoys (FDR beyond them stays above 1/2), a few mixed rows, decoys
+    labels = [True] * k_top + [False] * n_dec + [r2.random() < 0.5 for _ in range(n_extra)]
+    labels += [False] * (n - len(labels))
+    base = [4 * n - 3 * i for i in range(n)]
+    order = list(range(n)); r2.shuffle(order)                  # row order in the file is not the rank order
+    df["Label"] = [labels[j] for j in order]
+    df["feat0"] = [sign * base[j] for j in order]              # sign * feat0 is the order of the models' scores
+    df["feat1"] = r2.sample(range(-6 * n, 6 * n), n)
+    df["rowid"] = np.arange(off, off + n)
+    df["SpecId"] = [f"g_{i}" for i in range(n)]
+    enc = case["enc"]
+    if enc == "pm1":
+        df["Label"] = np.where(df["Label"], 1, -1)
+    elif enc == "01":
+        df["Label"] = np.where(df["Label"], 1, 0)
+    if case.get("two_good"):
+        df = df.rename(columns={"feat1": "afeat"})
+    ds2 = mkdata.read_dataset(mkdata.write_table(df, d / f"follow.{case['fmt']}"))
+    if list(ds2.feature_columns) != feature_cols:
+        chk.corr_break("fbfull", dict(case=case, note="follow-up table has other feature columns"))
+        return
+    mark = len(recest.log(run))
+    chk.count("follow", "list")
+    try:
+        _, models2, scores2, descs2 = mokapot.brew([ds2], list(models), test_fdr=float(thr), folds=len(models),
+                                                   rng=case["seed"] + 1)
+    except Exception as e:
+        chk.spec_violation("follow-list-exception:" + type(e).__name__,
+                           dict(case=case, error=f"{type(e).__name__}: {e}"[:300],
+                                clause="brew raised when handed the trained fold models of an earlier run as a list"))
+        return
+    ms2 = [model_attrs(m, feature_cols) for m in models2]
+    if ms2 != ms:
+        chk.spec_violation("follow-list-models-altered",
+                           dict(case=case, follow="list", before=ms, after=ms2,
+                                clause="trained models handed to brew as a list are used as they are: after the call they must "
+                                       "carry the feat_pass / best_feat / desc / override of their training (the baseline of the "
+                                       f"safety net); before {ms}, after {ms2}"))
+        return
+    tag_of = {}
+    for kind, t, ids, _ in recest.log(run)[mark:]:
+        if kind == "score":
+            for i in ids:
+                tag_of[i] = t
+    try:
+        per_fold = [[sign * int(f) * recest.TAGMOD + tag_of[int(i)] for f, i in zip(df["feat0"], df["rowid"])]]
+    except KeyError:
+        chk.corr_break("fbfull", dict(case=case, follow="list", note="a row was never scored by any model"))
+        return
+    returned = [np.asarray(sc, dtype=float).ravel() for sc in scores2]
+    check_full(chk, case, "list", ms2, thr, [df], feature_cols, per_fold, False, False, [], [], per_fold,
+               int_columns(returned), list(descs2), dict(k_top=k_top, rows=n))
+
+
+def follow_retrain(chk, case, d, tabs, feature_cols, models, run, sign, override, direction):
+    """brew(psms, model=<one trained Model>): every fold re-trains a copy.  The start of the training is the model's own
+    scoring (model.py `is_trained` branch: feat_pass = accepted targets of its scores on the training set, best_feat/desc
+    carried over); with an estimator that gets worse by re-training `fit` reports "performs worse", the copy stays trained,
+    `reset` is set and brew compares (and may return) the calibrated scores of the ORIGINAL model on all PSMs."""
+    import mokapot
+
+    flip = case["follow"] == "retrain-flip"
+    folds = case["folds"]
+    pre = models[0]
+    carried = model_attrs(pre, feature_cols)
+    t0 = int(pre.estimator.tag_)
+    if flip:
+        pre.estimator.flip_at = pre.estimator.n_fit_            # every further fit turns the output upside down
+    paths = [d / f"in{k}.{case['fmt']}" for k in range(len(tabs))]
+    test = [[set(map(int, idx)) for idx in mkdata.read_dataset(p)._split(folds, np.random.default_rng(0))] for p in paths]
+    train_fdr = Fraction(case.get("train_fdr", THR))
+    thr = Fraction(case.get("test_fdr", THR))
+    up = sign > 0                                                # the trained model ranks by feat0, high first iff sign > 0
+    reqs = []
+    for f in range(folds):
+        rows = []
+        for k, df in enumerate(tabs):
+            labs = raw_labels(df)
+            col = df["feat0"].tolist()
+            rows += [[int(col[i]), labs[i] in (1, True)] for i in range(len(df)) if i not in test[k][f]]
+        reqs += [req("labels", up, train_fdr, rows), req("labels", not up, train_fdr, rows)]
+    # the original model on every whole collection at test_fdr (what the reset path calibrates with)
+    for df in tabs:
+        labs = raw_labels(df)
+        reqs.append(req("labels", up, thr, [[int(v), l in (1, True)] for v, l in zip(df["feat0"], labs)]))
+    resp = [dec(r_) for r_ in common.driver_batch(reqs)]
+    counts = [sum(1 for x in r_ if x == "1") for r_ in resp[:2 * folds]]
+    c_start, c_flip = counts[0::2], counts[1::2]
+    whole = resp[2 * folds:]
+    worse = [flip and (c_flip[f] == 0 or (c_flip[f] < c_start[f] and not override)) for f in range(folds)]
+    m_reset = dec(common.driver_batch([req("fbreset", [[True, w] for w in worse])])[0])
+    reset = any(worse)
+    if (m_reset[0] == "T") != reset:
+        chk.corr_break("fbreset", dict(case=case, worse=worse, model=str(m_reset)))
+    chk.count("follow", case["follow"] + (":reset" if reset else ":no-reset"))
+    dss2 = [mkdata.read_dataset(p) for p in paths]
+    try:
+        _, models2, scores2, descs2 = mokapot.brew(dss2, pre, test_fdr=float(thr), folds=folds, rng=case["seed"] + 2)
+    except Exception as e:
+        msg = f"{type(e).__name__}: {e}"
+        info = dict(case=case, follow=case["follow"], error=msg[:300], start_counts_per_fold=c_start,
+                    accepted_by_original_model_per_collection=[sum(1 for x in w if x == "1") for w in whole])
+        if "No PSMs accepted at train_fdr" in msg and min(c_start) == 0:
+            chk.reject("follow-retrain:no-start-labels")
+        elif "No target PSMs were below" in msg and reset and any(not any(x == "1" for x in w) for w in whole):
+            chk.reject("follow-retrain:reset-scores-accept-nothing")
+        else:
+            chk.spec_violation("follow-retrain-refused",
+                               dict(info, clause="brew raised when re-training a trained model although the model's own scores "
+                                                 "accept targets on every training set"
+                                                 + (" and, after the reset, in every collection" if reset else "")))
+        return
+    ms2 = [model_attrs(m, feature_cols) for m in models2]
+    if any(m is None for m in ms2):
+        chk.spec_violation("best-feat-not-a-name", dict(case=case, follow=case["follow"],
+                                                        clause="a re-trained model's best_feat is not the name of a feature"))
+        return
+    # the three attributes of the `is_trained` start (spec restated; model: pretrainedAttrs is the identity on them)
+    for f, m in enumerate(ms2):
+        if m[0] != c_start[f] or m[1] != carried[1] or m[2] != carried[2]:
+            chk.spec_violation("pretrained-start-attrs",
+                               dict(case=case, follow=case["follow"], fold=f, reported=m, own_count=c_start[f],
+                                    carried=dict(best_feat=carried[1], desc=carried[2]),
+                                    clause=f"fold {f}: a re-trained model must report the accepted targets of its own scores on "
+                                           f"the training set as feat_pass ({c_start[f]}) and carry best_feat/desc of its earlier "
+                                           f"training; it reports feat_pass={m[0]}, best_feat={feature_cols[m[1]]}, desc={m[2]}"))
+            return
+    if [m[4] for m in ms2] != [x == "T" for x in m_reset[1]]:
+        chk.corr_break("fbreset", dict(case=case, is_trained=[m[4] for m in ms2], model=str(m_reset)))
+        return
+    returned = [np.asarray(sc, dtype=float).ravel() for sc in scores2]
+    shaped = len(returned) == len(tabs) and all(len(r) == len(df) for r, df in zip(returned, tabs))
+    # scores of the original model (never re-fitted: brew trains deep copies)
+    orig = [[sign * int(f) * recest.TAGMOD + t0 for f in df["feat0"]] for df in tabs]
+    if reset:
+        # the compared scores are calibrated per collection: (s - t) / (t - d), t = lowest accepted target score, d = median
+        # decoy score; represented for the model by the integers s (or -s when t < d turns the order round)
+        src_reset, expect = [], []
+        for k, df in enumerate(tabs):
+            s_arr = np.asarray(orig[k], dtype=float)
+            lab = np.asarray([int(x) for x in whole[k]])
+            if not (lab == 1).any() or not (lab == -1).any():
+                chk.corr_break("fbreset", dict(case=case, collection=k,
+                                               note="a reset was expected, whose calibration must refuse this collection (the "
+                                                    "original model accepts no target / there is no decoy); brew returned"))
+                return
+            t_ = np.min(s_arr[lab == 1]); d_ = np.median(s_arr[lab == -1])
+            if t_ == d_:
+                chk.reject("follow-retrain:degenerate-calibration")
+                return
+            expect.append((s_arr - t_) / (t_ - d_))
+            src_reset.append(orig[k] if t_ > d_ else [-x for x in orig[k]])
+        compared, per_fold, ens_src = src_reset, None, []
+        if shaped and all(np.array_equal(r, e) for r, e in zip(returned, expect)):
+            ret_int = src_reset
+        else:
+            ret_int = int_columns(returned) if shaped else None
+    else:
+        # every copy was trained (again): per-fold scores; all copies carry the tag of the original, so the score of a row
+        # does not depend on its fold; a copy that was re-fitted by a flipping estimator scores upside down
+        sgn2 = -sign if flip else sign
+        per_fold = [[sgn2 * int(f) * recest.TAGMOD + t0 for f in df["feat0"]] for df in tabs]
+        compared, src_reset, ens_src = per_fold, [], []
+        ret_int = int_columns(returned) if shaped else None
+    check_full(chk, case, case["follow"], ms2, thr, tabs, feature_cols, compared, reset, False, src_reset, ens_src, per_fold,
+               ret_int, list(descs2), dict(reset=reset, worse=worse))
+
+
+def calibrated_scores(chk, case, tabs, raw_scores, tag_of):
+    """decision_function estimators: `_predict` calibrates the scores of every fold, per collection, before the comparison:
+    (s - t) / (t - d) with t the lowest score of a target accepted at test_fdr within the fold and d the median decoy
+    score of the fold.  Returns (integers in the same order as the calibrated scores — the exact rationals times a common
+    positive factor per collection —, the expected floats by the same numpy operations), or None (case given up)."""
+    from math import lcm
+
+    thr = Fraction(case.get("test_fdr", THR))
+    groups, reqs = [], []
+    for k, df in enumerate(tabs):
+        labs = raw_labels(df)
+        by_tag = {}
+        for j, i in enumerate(df["rowid"]):
+            by_tag.setdefault(tag_of[int(i)], []).append(j)
+        for t, idx in sorted(by_tag.items()):
+            groups.append((k, idx))
+            reqs.append(req("labels", True, thr, [[raw_scores[k][j], labs[j] in (1, True)] for j in idx]))
+    resp = [dec(r_) for r_ in common.driver_batch(reqs)]
+    ints = [[None] * len(df) for df in tabs]
+    floats = [np.zeros(len(df)) for df in tabs]
+    parts = [[] for _ in tabs]
+    for (k, idx), lab in zip(groups, resp):
+        lab = np.asarray([int(x) for x in lab])
+        s_arr = np.asarray([raw_scores[k][j] for j in idx], dtype=float)
+        if not (lab == 1).any() or not (lab == -1).any():
+            chk.corr_break("fallback", dict(case=case, collection=k,
+                                            note="a fold's scores accept no target at test_fdr (or the fold has no decoy): "
+                                                 "the calibration of `_predict` must refuse, brew returned"))
+            return None
+        t_ = np.min(s_arr[lab == 1]); d_ = np.median(s_arr[lab == -1])
+        q = int(round(2 * t_ - 2 * d_))                       # t - d = q / 2 exactly (t an integer, d an integer or a half)
+        if q == 0:
+            chk.reject("degenerate-calibration")
+            return None
+        floats[k][idx] = (s_arr - t_) / (t_ - d_)
+        parts[k].append((idx, int(t_), q))
+    for k in range(len(tabs)):
+        big = lcm(*[abs(q) for _, _, q in parts[k]])
+        for idx, t_, q in parts[k]:
+            f_ = (big // abs(q)) * (1 if q > 0 else -1)
+            for j in idx:
+                ints[k][j] = 2 * (raw_scores[k][j] - t_) * f_
+    return ints, floats
+
+
+def calibration_refusal_check(chk, case, d, tabs, sign, msg):
+    """brew raised "Failed to calibrate scores between cross-validation folds" (`_predict`): legitimate only if in some
+    collection some test fold's scores (every fold model ranks by sign * feat0) accept no target at test_fdr."""
+    folds = case["folds"]
+    thr = Fraction(case.get("test_fdr", THR))
+    reqs = []
+    for k, df in enumerate(tabs):
+        labs = raw_labels(df)
+        col = df["feat0"].tolist()
+        test = mkdata.read_dataset(d / f"in{k}.{case['fmt']}")._split(folds, np.random.default_rng(0))
+        for idx in test:
+            reqs.append(req("labels", sign > 0, thr, [[int(col[int(i)]), labs[int(i)] in (1, True)] for i in idx]))
+    counts = [sum(1 for x in dec(r_) if x == "1") for r_ in common.driver_batch(reqs)]
+    if min(counts) == 0:
+        chk.reject("brew-refused:calibration-accepts-nothing")
+        return
+    chk.spec_violation("brew-refused-calibration",
+                       dict(case=case, error=msg[:200], accepted_per_collection_and_fold=counts,
+                            clause="brew refused (failed to calibrate) although every fold's scores accept targets at test_fdr "
+                                   f"in every collection: {counts}"))
+
+
 def run_case(chk, case):
     import random
     import mokapot
@@ -227,6 +660,12 @@ def run_case(chk, case):
                                        optional=("ExpMass",), signal=case.get("signal", 4.0),
                                        good_feats=(0, 1) if case.get("two_good") else (0,))
             df["rowid"] = np.arange(off, off + len(df))
+            enc_k = (case.get("enc2") or case["enc"]) if k else case["enc"]
+            if enc_k != "bool" and case.get("lab_dtype") == "float":
+                df["Label"] = df["Label"].astype(float)            # 1.0 / -1.0 / 0.0 (text: "1.0")
+            elif enc_k != "bool" and case.get("lab_dtype") == "int8" and case["fmt"] == "parquet":
+                df["Label"] = df["Label"].astype(np.int8)
+            chk.count("label_dtype", str(df["Label"].dtype))
             df["SpecId"] = [f"f{k}_{i}" for i in range(len(df))]
             if case["best_low"]:
                 df["feat0"] = -df["feat0"]
@@ -238,22 +677,29 @@ def run_case(chk, case):
             dss.append(mkdata.read_dataset(mkdata.write_table(df, d / f"in{k}.{case['fmt']}")))
         feature_cols = list(dss[0].feature_columns)          # rowid, feat0, feat1
         good_sign = -1 if case["best_low"] else 1
-        sign = good_sign if case["est"] == "good" else -good_sign
-        override = case["est"] == "forced-bad"
+        sign = good_sign if case["est"] in ("good", "forced-good") else -good_sign
+        override = case["est"].startswith("forced")
         run = recest.new_run()
         dir_idx = case.get("direction")
         direction = None if dir_idx is None else feature_cols[1 + dir_idx]
-        model = mokapot.Model(recest.TagProba(sign=sign, run=run), scaler="as-is", train_fdr=case.get("train_fdr", THR), max_iter=2,
+        ens = bool(case.get("ens"))
+        api = case.get("api", "proba")
+        chk.count("estimator_api", api)
+        model = mokapot.Model((FlipDecision if api == "decision" else FlipProba)(sign=sign, run=run), scaler="as-is", train_fdr=case.get("train_fdr", THR), max_iter=2,
                               override=override, rng=case["seed"], direction=direction)
         chk.count("direction_option", "none" if direction is None else ("informative" if dir_idx == 0 else "other"))
         try:
-            _, models, scores, descs = mokapot.brew(dss, model, test_fdr=case.get("test_fdr", THR), folds=case["folds"], rng=case["seed"])
+            _, models, scores, descs = mokapot.brew(dss, model, test_fdr=case.get("test_fdr", THR), folds=case["folds"],
+                                                    rng=case["seed"], **(dict(ensemble=True) if ens else {}))
         except Exception as e:
             msg = f"{type(e).__name__}: {e}"
             if "No PSMs accepted at train_fdr" in msg or "No PSMs found below" in msg:
                 # refusal because the start labels are empty: legitimate only if on some fold's training set the start
                 # feature (the named one, or every feature) accepts nothing in either direction
                 refusal_check(chk, case, d, tabs, feature_cols, direction, msg)
+                return
+            if api == "decision" and "Failed to calibrate scores between cross-validation folds" in msg:
+                calibration_refusal_check(chk, case, d, tabs, sign, msg)
                 return
             if isinstance(e, (IndexError,)) or "No PSMs" in msg or "PSMs were" in msg:
                 chk.reject("brew-refused:" + type(e).__name__)
@@ -331,7 +777,14 @@ def run_case(chk, case):
                 chk.corr_break("fbbest", dict(case=case, fold=f, model=best, impl=list(got)))
         all_trained = all(m[4] for m in ms)
         model_scores = []
-        if all_trained:
+        model_float = None
+        if all_trained and ens:
+            # ensemble=True: every fold model scores every row and brew compares / returns the mean; here the mean is
+            # represented by folds * mean (an integer, same order), the returned floats are compared with sum / folds
+            tags = [int(m.estimator.tag_) for m in models]
+            model_scores = [[len(tags) * sign * int(f) * recest.TAGMOD + sum(tags) for f in df["feat0"]] for df in tabs]
+            model_float = [np.asarray(e, dtype=float) / len(tags) for e in model_scores]
+        elif all_trained:
             tag_of = {}
             nscore = {}
             for kind, t, ids, _ in recest.log(run):
@@ -347,6 +800,11 @@ def run_case(chk, case):
                 except KeyError:
                     chk.corr_break("fallback", dict(case=case, note="a row was never scored by any model"))
                     return
+            if api == "decision" and not ens:
+                cal = calibrated_scores(chk, case, tabs, model_scores, tag_of)
+                if cal is None:
+                    return
+                model_scores, model_float = cal
         else:
             model_scores = [[0] * len(df) for df in tabs]
         reqs = [req("fbpred", Fraction(case.get("test_fdr", THR)), [[[s, l] for s, l in zip(sc, raw_labels(df))]
@@ -363,8 +821,10 @@ def run_case(chk, case):
         returned = []
         for sc, df in zip(scores, tabs):
             returned.append(np.asarray(sc, dtype=float).ravel())
-        is_model = all_trained and all(np.array_equal(ret, np.array(msc, dtype=float))
-                                       for ret, msc in zip(returned, model_scores))
+        if model_float is None:
+            model_float = [np.array(msc, dtype=float) for msc in model_scores]
+        is_model = all_trained and len(returned) == len(model_float) and all(
+            np.array_equal(ret, msc) for ret, msc in zip(returned, model_float))
         is_zero = (not all_trained) and all((ret == 0).all() for ret in returned)
         feat_hit = None
         for j, c in enumerate(feature_cols):
@@ -375,15 +835,37 @@ def run_case(chk, case):
                  for df, msc in zip(tabs, model_scores)]
         thr_t = Fraction(case.get("test_fdr", THR))
         ret_int = None
-        if all(np.all(np.isfinite(r)) and np.all(r == np.round(r)) for r in returned):
+        if (ens or api == "decision") and is_model:
+            ret_int = [list(msc) for msc in model_scores]          # the integer representation of the returned means / calibrated scores
+        elif all(np.all(np.isfinite(r)) and np.all(r == np.round(r)) for r in returned):
             ret_int = [[int(v) for v in r] for r in returned]
-        tail_reqs = [req("fbtail", ms, thr_t, colls)]
         shaped = ret_int is not None and len(ret_int) == len(tabs) and all(len(r) == len(df) for r, df in zip(ret_int, tabs))
+        # the model of every source of the compared scores (`brewFull`) and its specification `TailSpecG`, for the
+        # compared scores as restated here: zeros unless every fold model is trained, then the ensemble mean or the
+        # per-fold scores
+        colls_full = [[c_[0], c_[1], [] if ens else c_[2]] for c_ in colls]
+        full_reqs = [req("fbfull", False, ens, ms, thr_t, colls_full, [], model_scores if ens else [])]
         if shaped:
-            tail_reqs.append(req("fbtailspec", ms, thr_t, colls, [ret_int, [bool(x) for x in descs]]))
-        tail_resp = common.driver_batch(tail_reqs)
-        tail_model = dec(tail_resp[0])
-        tail_spec_ok = (dec(tail_resp[1]) == "T") if shaped else None
+            full_reqs.append(req("fbtailgspec", ms, thr_t, colls_full, model_scores, [ret_int, [bool(x) for x in descs]]))
+        if not ens:
+            tail_reqs = [req("fbtail", ms, thr_t, colls)]
+            if shaped:
+                tail_reqs.append(req("fbtailspec", ms, thr_t, colls, [ret_int, [bool(x) for x in descs]]))
+        else:
+            tail_reqs = []                                          # `brewTail` has no ensemble source
+        tail_resp = common.driver_batch(tail_reqs + full_reqs)
+        full_resp = tail_resp[len(tail_reqs):]
+        full_model = dec(full_resp[0])
+        full_spec_ok = (dec(full_resp[1]) == "T") if shaped else None
+        if ens:
+            tail_model, tail_spec_ok = full_model, full_spec_ok
+        else:
+            tail_model = dec(tail_resp[0])
+            tail_spec_ok = (dec(tail_resp[1]) == "T") if shaped else None
+        chk.count("ensemble", ens)
+        if api == "decision":
+            chk.count("decision_api_outcome", "calibrated scores returned" if (is_model and not ens) else
+                      ("ensemble mean returned" if is_model else ("zeros" if is_zero else "feature")))
         chk.count("enc2", str(case.get("enc2") if case["nfiles"] > 1 else None))
         chk.count("est", case["est"]); chk.count("enc", case["enc"]); chk.count("best_low", case["best_low"])
         chk.count("all_trained", all_trained); chk.count("decision", "feature" if decision != "model" else "model")
@@ -431,6 +913,20 @@ def run_case(chk, case):
                 # several folds may tie on feat_pass with different features: TailSpec accepted the choice
                 if sum(1 for m in ms if m[0] == feat_total) == 1 or decision == "model":
                     chk.corr_break("fbtail", dict(info, model_descs=tm_descs))
+        # the same through the model with the source selection (`brewFull`) and `TailSpecG`
+        if full_spec_ok is not True:
+            info["clause"] = "the returned (scores, descs) do not satisfy TailSpecG for the compared scores of this run"
+            chk.spec_violation("safety-net-full", info)
+            return
+        if full_model == "reject-label":
+            chk.corr_break("fbfull", dict(info, note="model rejects labels that brew accepted"))
+        else:
+            fm_scores = [[int(x) for x in col] for col in full_model[0]]
+            fm_descs = [x == "T" for x in full_model[1]]
+            if fm_scores != ret_int or fm_descs != [bool(x) for x in descs]:
+                if sum(1 for m in ms if m[0] == feat_total) == 1 or decision == "model":
+                    chk.corr_break("fbfull", dict(info, model_descs=fm_descs))
+        chk.count("main_boundary", "feat_total>pred" if feat_total > pred else ("equal" if feat_total == pred else "feat_total<pred"))
         # model agreement
         if decision == "model":
             if not (is_model or is_zero):
@@ -443,8 +939,9 @@ def run_case(chk, case):
         # --- confidence assignment must honour the direction
         out = d / "out"
         out.mkdir()
+        pep_calls = []
         try:
-            with P.pep_kernel(stub=True):
+            with pep_recorder(pep_calls):
                 P.run_assign_confidence(dss, list(scores), out, descs=list(descs), prefixes=[f"p{k}" for k in range(len(dss))],
                                         decoys=True)
         except Exception as e:
@@ -470,19 +967,31 @@ def run_case(chk, case):
                 rr = [rank[i] for i in ids]
                 if any(a < b for a, b in zip(rr, rr[1:])):
                     bad = "result rows are not ordered best-first for the returned direction"
-                if not np.array_equal(np.asarray(f["score"], dtype=float), np.array(rr)):
+                if not same_scores(np.asarray(f["score"], dtype=float), np.array(rr)):
                     bad = bad or "reported score is not the (sign-corrected) returned score of the row"
             if bad:
                 chk.spec_violation("direction", dict(case=case, clause=bad, desc=desc))
                 return
+        if not pep_input_check(chk, case, pep_calls, out, tabs, returned, None if ((ens or api == "decision") and is_model) else ret_int, descs):
+            return
         if case.get("entry_fdr") is not None:
             entry_check(chk, case, d, dss, tabs, feature_cols)
+            if chk.spec_violations:
+                return
+        if case.get("follow"):
+            if not all_trained:
+                chk.count("follow", "skipped:untrained-fold-model")
+            elif case["follow"] == "list":
+                follow_list(chk, case, d, tabs, feature_cols, models, ms, run, sign, off)
+            else:
+                follow_retrain(chk, case, d, tabs, feature_cols, models, run, sign, override, direction)
 
 
 def search(chk):
     for _ in range(25 * chk.budget_mult):
         c = gen_case(chk.rng)
-        c["est"] = chk.rng.choice(["bad", "good"])
+        if not c.get("follow"):
+            c["est"] = chk.rng.choice(["bad", "good"])
         run_case(chk, c)
         if chk.spec_violations:
             return
@@ -504,6 +1013,15 @@ def main(chk, args):
         "training set; the fold partition is recomputed with the real `_split` on a fresh copy of the files (C02)",
         "assign_confidence(scores=None): the accepted counts per feature and direction are computed by the C01 model on the "
         "whole collection; which column the result files rank by is read off their `score` column",
+        "ensemble=True: the returned mean over the fold models is compared with (sum of the recording estimators' known "
+        "outputs) / folds by the same float division and handed to the model as that integer sum (same order)",
+        "reset path: the calibrated scores (s - t) / (t - d) of the original model are recomputed with the same numpy "
+        "operations from the C01 labels and handed to the model as s (or -s if t < d): calibration itself is C11's subject; "
+        "whether a fold's re-training reports 'performs worse' is restated from model.py:312-329 for an estimator whose "
+        "output order is known before and after the re-fit",
+        "follow-up runs re-read the input files (brew consumes `spectra_dataframe` of a dataset); the fold partition of a "
+        "re-trained run is recomputed with the real `_split` on a fresh copy (C02)",
+        "the PEP kernel is replaced by a recorder that answers zeros (PEP numerics are C06's subject)",
     ]
     chk.finish(build, RULE, search=search, lc=lc, trusted_extra=["C01 model for q-values", "pandas/pyarrow I/O"])
 
